@@ -704,8 +704,8 @@ class XsdEnumerationFacets(XsdFacet, MutableSequence[ElementType]):
                 if any(math.isinf(x) and str(value) == str(x)  # type: ignore[arg-type]
                        for x in self.enumeration):  # pragma: no cover
                     return
-        except TypeError:
-            pass
+        except (TypeError, OverflowError):
+            pass  # not a float (OverflowError: an int too large to convert to float)
 
         reason = _("value must be one of {!r}").format(self.enumeration)
         raise XMLSchemaValidationError(self, value, reason)
